@@ -63,9 +63,6 @@ package cache
 //@ pred tblUniq(m *UInt64Map[any]) := forall s int, t int :: {m.data[s].Key, m.data[t].Key} 0 <= s && s <= m.mask && 0 <= t && t <= m.mask && m.data[s].Key != 0 && m.data[s].Key == m.data[t].Key ==> s == t
 //@ pred tblInv(m *UInt64Map[any]) := tblShape(m) && tblProbe(m) && tblUniq(m)
 //@
-//@ axiom global pow2_zero: pow2mask(0)
-//@ axiom global pow2_double (y int): {pow2mask(y)} pow2mask(y) ==> pow2mask(2 * y + 1)
-//@
 //@ # the constructor returns an all-empty power-of-two table, which satisfies the invariant trivially; trusted because its
 //@ # size computation goes through floating point (capacity/0.75), which the generator treats as opaque
 //@ func NewUInt64Map[any]
